@@ -44,6 +44,7 @@ int sm9_exch_step_1B(const SM9_EXCH_MASTER_KEY *mpk, const char *idA, size_t idA
 	const SM9_EXCH_KEY *key, const SM9_Z256_POINT *RA, SM9_Z256_POINT *RB, uint8_t *sk, size_t klen)
 {
 	sm9_z256_t rB;
+	SM9_Z256_POINT Q;
 	sm9_z256_fp12_t G1, G2, G3;
 	uint8_t g1[32 * 12], g2[32 * 12], g3[32 * 12];
 	uint8_t ta[65], tb[65];
@@ -51,8 +52,8 @@ int sm9_exch_step_1B(const SM9_EXCH_MASTER_KEY *mpk, const char *idA, size_t idA
 
 	// B1: Q = H1(ID_A||hid,N) * P1 + Ppube
 	sm9_z256_hash1(rB, idA, idAlen, SM9_HID_EXCH);
-	sm9_z256_point_mul(RB, rB, sm9_z256_generator());
-	sm9_z256_point_add(RB, RB, &mpk->Ppube);
+	sm9_z256_point_mul(&Q, rB, sm9_z256_generator());
+	sm9_z256_point_add(&Q, &Q, &mpk->Ppube);
 
 	do {
 		// B2: rand rB in [1, N-1]
@@ -62,8 +63,8 @@ int sm9_exch_step_1B(const SM9_EXCH_MASTER_KEY *mpk, const char *idA, size_t idA
 			return -1;
 		}
 
-		// B3: RB = rB * Q
-		sm9_z256_point_mul(RB, rB, RB);
+		// B3: RB = rB * Q (Q is kept, a retry must not multiply the previous RB again)
+		sm9_z256_point_mul(RB, rB, &Q);
 
 		// B4: check RA on curve; G1 = e(RA, deB), G2 = e(Ppube, P2) ^ rB, G3 = G1 ^ rB
 		if (!sm9_z256_point_is_on_curve(RA)) {
@@ -150,7 +151,12 @@ int sm9_exch_step_2A(const SM9_EXCH_MASTER_KEY *mpk, const char *idA, size_t idA
 		sm3_kdf_update(&kdf_ctx, g3, sizeof(g3));
 		sm3_kdf_finish(&kdf_ctx, sk);
 
-	} while (mem_is_zero(sk, klen) == 1);
+		// nothing in this step is random, repeating it cannot change an all-zero key
+		if (mem_is_zero(sk, klen) == 1) {
+			error_print();
+			return -1;
+		}
+	} while (0);
 
 	// A8: SA = Hash(0x83 || g1 || Hash(g2 || g3 || ID_A || ID_B || RA || RB)) [optional]
 
